@@ -272,6 +272,8 @@ def run(P, rep, tier):
                 seen_nodes.add(id(ev.node))
                 if not any(k[1] == norm(ev.node) and v[1] for k, v in sites.items()):
                     rep.ok(r2, 'sink proved safe: %s' % norm(ev.node)[:70])
+    from sa.props.c08 import ctor_rule
+    ctor_rule(P, rep, r2)
     rep.floor(r2, 8)
 
     # ---- R3: verbatim storage / integer conversion ---------------------------
